@@ -166,7 +166,9 @@ func (c *copier) prepareTargetDir(srcFollowed, src, destPath string, copyDirCont
 	}
 
 	if (!copyDirContents && fiSrc.IsDir() && fiDest != nil) || (!fiSrc.IsDir() && fiDest != nil && fiDest.IsDir()) {
-		destPath = filepath.Join(destPath, filepath.Base(src))
+		// name of the source inside srcRoot: a src argument such as "sub/.." or ".." denotes the root itself
+		// and must not contribute a ".." component below the destination
+		destPath = filepath.Join(destPath, filepath.Base(filepath.Join(string(filepath.Separator), src)))
 	}
 
 	target := filepath.Dir(destPath)
